@@ -81,11 +81,11 @@ def run(P, R, tier):
     # ---------------------------------------------------------------- C19.b consistency gate in the sub-part reader
     readers = []
     for g in helpers.values():
-        if any(astq.fs_call(c) in ('ls', 'listdir') for c in astq.own_calls(g)) and any(isinstance(s, ast.Return) and s.value is not None for s in walk_own(g.node)):
-            # returns data and lists a directory
+        if any(astq.fs_call(c) in ('ls', 'listdir') for c in astq.own_calls(g)):
+            # lists a directory and reads parquet data (handed on as return value or through a collector)
             if any(astq.is_call_to(P, g, c, P.find_func('spatialpandas.io.parquet', 'read_parquet')) for c in astq.own_calls(g)):
                 readers.append(g)
-    R.floor('C19.b', 'sub-part reader helpers', len(readers), 1)
+    R.floor('C19.b', 'sub-part reader helpers', len(readers), 1, defer=True)
     rp = P.find_func('spatialpandas.io.parquet', 'read_parquet')
     for g in readers:
         C = cfgmod.build(g.node)
